@@ -222,7 +222,11 @@ func (c *Ctx) memSet(st *State, name string, t Term) {
 
 type storeRec struct{ base, addr, val Term }
 
-type copyRec struct{ e, dBase, dOff, n, sBase, sOff Term }
+type copyRec struct {
+	e, dBase, dOff, n, sBase, sOff Term
+	zero    bool
+	zeroVal Term
+}
 
 // splitStore: (store base addr value) -> base, addr
 func splitStore(t Term) (Term, Term, Term, bool) {
@@ -749,13 +753,19 @@ func (c *Ctx) groundCopies(m Term, idx Term, vs string) {
 				c.assumed[key] = true
 				na := raw(rec.val.S, SArr(c.idxSort, vs))
 				inWin := And(c.idxLe(cr.dOff, idx), c.idxLt(idx, c.idxAdd(cr.dOff, cr.n)))
-				srcIdx := c.idxAdd(cr.sOff, c.idxSub(idx, cr.dOff))
-				src := Select(Select(cr.e, cr.sBase), srcIdx)
-				c.assumes = append(c.assumes, Assume{declPos: len(c.decls), why: "copy of a symbolic range (instance)",
-					t: Eq(Select(na, idx), Ite(inWin, src, Select(Select(cr.e, cr.dBase), idx)))})
-				// the source may itself be a copied array
-				c.groundCopies(cr.e, srcIdx, vs)
-				c.groundCopies(cr.e, idx, vs)
+				if cr.zero {
+					c.assumes = append(c.assumes, Assume{declPos: len(c.decls), why: "clear of a symbolic range (instance)",
+						t: Eq(Select(na, idx), Ite(inWin, cr.zeroVal, Select(Select(cr.e, cr.dBase), idx)))})
+					c.groundCopies(cr.e, idx, vs)
+				} else {
+					srcIdx := c.idxAdd(cr.sOff, c.idxSub(idx, cr.dOff))
+					src := Select(Select(cr.e, cr.sBase), srcIdx)
+					c.assumes = append(c.assumes, Assume{declPos: len(c.decls), why: "copy of a symbolic range (instance)",
+						t: Eq(Select(na, idx), Ite(inWin, src, Select(Select(cr.e, cr.dBase), idx)))})
+					// the source may itself be a copied array
+					c.groundCopies(cr.e, srcIdx, vs)
+					c.groundCopies(cr.e, idx, vs)
+				}
 			}
 		}
 		m = rec.base
